@@ -6,6 +6,7 @@ import (
 	"math/big"
 	"sort"
 	"strings"
+	"sync/atomic"
 
 	"golang.org/x/tools/go/ssa"
 )
@@ -120,10 +121,10 @@ type Heap struct {
 	epoch int
 }
 
-var epochCounter int
-var objCounter int
+var epochCounter int64
+var objCounter int64
 
-func newEpoch() int { epochCounter++; return epochCounter }
+func newEpoch() int { return int(atomic.AddInt64(&epochCounter, 1)) }
 
 func NewHeap() *Heap { return &Heap{base: map[int]*Object{}, objs: map[int]*Object{}, epoch: newEpoch()} }
 
@@ -151,9 +152,9 @@ func (h *Heap) Freeze() {
 }
 
 func (h *Heap) Alloc(root Value, typ types.Type, site string) int {
-	objCounter++
-	h.objs[objCounter] = &Object{Root: root, Epoch: h.epoch, Typ: typ, Site: site}
-	return objCounter
+	id := int(atomic.AddInt64(&objCounter, 1))
+	h.objs[id] = &Object{Root: root, Epoch: h.epoch, Typ: typ, Site: site}
+	return id
 }
 
 func (h *Heap) get(id int) *Object {
